@@ -41,6 +41,9 @@ SI_VOLUME = {  # cm3
 }
 SI_TEMPERATURE = {"K": -273.15, "°C": 273.15}
 TOL = 5e-4
+# exactly defined: decimal multiples and defined constants; the others (mmHg / torr, amu, gas volumes at STP) are rounded in the repo's tables
+EXACT_UNITS = {"Pa", "kPa", "MPa", "GPa", "mbar", "bar", "atm", "mmol", "mol", "kmol", "umol", "ug", "mg", "cg", "dg", "g", "kg", "t",
+               "cm3", "mL", "cc", "dm3", "L", "m3", "uL", "mm3", "K", "°C"}
 
 UNKNOWN = "bogus"
 
@@ -52,7 +55,7 @@ def where_const(model, mod, name):
 
 
 def r_table(ctx: Ctx, model, t: Tables):
-    ctx.rule("R-table: every unit-table entry equals its SI definition within 5e-4 (repo tolerance 1e-3)")
+    ctx.rule("R-table: every unit-table entry equals its SI definition: exactly for decimal multiples and defined units (atm, K / °C offset), within 5e-4 for the rounded ones (mmHg, torr, amu, STP gas volumes)")
     for tabname, tab, ref in (("_PRESSURE_UNITS", t.pressure, SI_PRESSURE), ("_MOLAR_UNITS", t.molar, SI_MOLAR),
                               ("_MASS_UNITS", t.mass, SI_MASS), ("_VOLUME_UNITS", t.volume, SI_VOLUME),
                               ("_TEMPERATURE_UNITS", t.temperature, SI_TEMPERATURE)):
@@ -63,6 +66,10 @@ def r_table(ctx: Ctx, model, t: Tables):
             got = float(val.value())
             exp = ref[unit]
             ok = abs(got - exp) <= TOL * abs(exp)
+            if unit in EXACT_UNITS:
+                # decimal multiples of the SI unit and units fixed by definition (atm = 101325 Pa, 0 C = 273.15 K): the table value is exact
+                from fractions import Fraction as _Fr
+                ok = val.value() == _Fr(repr(exp)) or val.value() == _Fr(int(exp)) if float(exp).is_integer() else val.value() == _Fr(repr(exp))
             ctx.ob(ok, Finding("C01.R-table", where_const(model, CU, tabname), f"{tabname}|{unit}",
                                f"{tabname}['{unit}'] = {got:g} but the SI definition gives {exp:g} "
                                f"(relative deviation {abs(got - exp) / abs(exp):.3g})",
